@@ -335,3 +335,92 @@ def leaf_option(e):
             return ("Some", e[3][0])
         return ("None",)
     return None
+
+
+def const_name_search(prog, body, enum_path):
+    """`TABLE.iter().find(|(name, _)| *name == s).map(|&(_, v)| v)` over a constant `[(&str, Enum); N]`: returns
+    {name: variant name} read from the compiler-evaluated constant (strings through its relocations), or None when the
+    body is not that search.  The closures are checked by provenance: the find closure compares the name half of the
+    element with the captured argument, the map closure returns the other half; a forward `find` returns the first
+    match, which for distinct names is the only one."""
+    import re
+
+    from .prov import derive, index_of
+
+    ix = index_of(body)
+    const = None
+    operands = [o for _bi, t in body.calls() for o in t["args"]]
+    for _bi, _si, st in body.stmts():
+        rv = st.get("rv") or {}
+        operands += [rv.get("a"), rv.get("b")] + list(rv.get("ops", []))
+    for o in operands:
+        k = o.get("k") if isinstance(o, dict) else None
+        ty = str((k or {}).get("ty", "")).replace(" ", "").replace("'static", "")
+        m = re.match(r"^&?\[\(&str,(.+)\);(\d+)\]$", ty)
+        if isinstance(k, dict) and m and m.group(1) == enum_path:
+            item = prog.consts.get(k.get("uneval") or "")
+            if not item or not item.get("relocs"):
+                # a promoted reference to the constant: find the constant item of that type with the same bytes
+                for c_ in prog.consts.values():
+                    cty = str(c_.get("ty", "")).replace(" ", "").replace("'static", "")
+                    if cty == ty.lstrip("&") and c_.get("relocs") and (not k.get("bytes") or c_.get("bytes") == k.get("bytes")):
+                        item = c_
+            if item:
+                const = (item, int(m.group(2)))
+    if not const or not const[0] or not const[0].get("bytes") or not const[0].get("relocs"):
+        return None
+    raw = bytes.fromhex(const[0]["bytes"])
+    n = const[1]
+    if n == 0 or len(raw) % n:
+        return None
+    stride = len(raw) // n
+    relocs = {int(o): bytes.fromhex(h) for o, h in const[0]["relocs"]}
+    adt = prog.adts.get(enum_path)
+    if not adt or stride < 17:
+        return None
+    by_discr = {int(v["discr"]) & 0xFF: v["name"] for v in adt["variants"]}
+    po = min(relocs) % stride if relocs else None
+    if po is None:
+        return None
+    eo = 16 if po == 0 else 0  # the enum byte lies outside the fat pointer
+    table = {}
+    for i in range(n):
+        base = i * stride
+        tgt = relocs.get(base + po)
+        if tgt is None:
+            return None
+        ln = int.from_bytes(raw[base + po + 8 : base + po + 16], "little")
+        name = tgt[:ln].decode("utf-8", "replace")
+        var = by_discr.get(raw[base + eo])
+        if var is None or name in table:
+            return None
+        table[name] = var
+    # the search itself
+    calls = [(bi, t) for bi, t in body.calls()]
+    lasts = [(t.get("res") or "").split("::")[-1] for _bi, t in calls]
+    if "find" not in lasts or {"rfind", "rev", "last", "rposition", "filter", "skip", "take"} & set(lasts):
+        return None
+    find_ok = map_ok = False
+    for _bi, t in calls:
+        last = (t.get("res") or "").split("::")[-1]
+        if last not in ("find", "map") or len(t["args"]) != 2:
+            continue
+        kk = ix.resolve(t["args"][1])
+        if not (kk[0] == "rv" and kk[1]["k"] == "agg" and kk[1].get("ak") == "closure"):
+            continue
+        cb = prog.body(kk[1]["closure"])
+        if cb is None:
+            continue
+        cix = index_of(cb)
+        if last == "find":
+            for _b2, t2 in cb.calls():
+                c2 = t2.get("res") or ""
+                if "PartialEq" in c2 and c2.split("::")[-1] == "eq" and len(t2["args"]) == 2:
+                    d0, d1 = derive(cix, t2["args"][0]), derive(cix, t2["args"][1])
+                    for el, cap in ((d0, d1), (d1, d0)):
+                        if 2 in el.params and any(p and p[-1] == "#0" for p in el.paths) and not any(p and p[-1] == "#1" for p in el.paths) and cap.outer_params == {1}:
+                            find_ok = True
+        else:
+            d0 = derive(cix, {"c": {"l": 0, "p": [], "ty": ""}})
+            map_ok = 2 in d0.params and any(p and p[-1] == "#1" for p in d0.paths) and not any(p and p[-1] == "#0" for p in d0.paths) and not d0.ops
+    return table if find_ok and map_ok else None
